@@ -15,8 +15,10 @@ Inductive api_status :=
 | Projection (of : string)         (* reads a field of a modelled value; exercised by the round trip oracle *)
 | Outside (reason : string).       (* not in the model *)
 
-Definition js_value : string :=
-  "takes or returns a JsValue: aborts outside a JavaScript host, cannot be run natively; its _json twin is modelled".
+(* exports that take or return a JsValue abort outside a JavaScript host and cannot be run natively: Model/C16Stats.v
+   models each as the value its _json twin serialises / the steps of its twin (C16StatsProofs.cstep_twin), the body is
+   pinned below (api_bodies); the correspondence executes the twin *)
+Definition js_twin (entry : string) : api_status := Modelled entry.
 
 Definition api_classification : list (string * api_status) :=
   [("setup", Outside "installs the panic hook and the tracing subscriber of the JavaScript console; no linter state");
@@ -29,13 +31,13 @@ Definition api_classification : list (string * api_status) :=
    ("Linter::new", Modelled "Wasm.new");
    ("Linter::is_likely_english", Modelled "C16Api.XIsLikelyEnglish");
    ("Linter::isolate_english", Modelled "C16Api.XIsolateEnglish");
-   ("Linter::get_lint_descriptions_as_json", Outside "a constant of the rule set (rule name -> description); reads no linter state, no clause of C16 mentions it");
+   ("Linter::get_lint_descriptions_as_json", Modelled "C16Stats.YGetDescriptions");
    ("Linter::get_lint_config_as_json", Modelled "Wasm.CGetConfig");
    ("Linter::set_lint_config_from_json", Modelled "Wasm.CSetConfig");
-   ("Linter::summarize_stats", Outside js_value);
-   ("Linter::get_lint_descriptions_as_object", Outside js_value);
-   ("Linter::get_lint_config_as_object", Outside js_value);
-   ("Linter::set_lint_config_from_object", Outside js_value);
+   ("Linter::summarize_stats", js_twin "C16Stats.YSummarize (the Summary handed to serde_wasm_bindgen)");
+   ("Linter::get_lint_descriptions_as_object", js_twin "C16Stats.YGetDescriptionsObject (twin: YGetDescriptions)");
+   ("Linter::get_lint_config_as_object", js_twin "C16Stats.YGetConfigObject (twin: Wasm.CGetConfig)");
+   ("Linter::set_lint_config_from_object", js_twin "C16Stats.YSetConfigObject (twin: Wasm.CSetConfig)");
    ("Linter::ignore_lint", Modelled "Wasm.CIgnore");
    ("Linter::lint", Modelled "Wasm.CLint");
    ("Linter::export_ignored_lints", Modelled "Wasm.CExportIgnored");
@@ -45,8 +47,8 @@ Definition api_classification : list (string * api_status) :=
    ("Linter::export_words", Modelled "Wasm.CExportWords");
    ("Linter::get_dialect", Modelled "Wasm.CGetDialect");
    ("Linter::apply_suggestion", Modelled "Wasm.CApply");
-   ("Linter::generate_stats_file", Modelled "C16Api.XGenerateStats (Wasm.CGetStats is its record list)");
-   ("Linter::import_stats_file", Modelled "C16Api.XImportStats");
+   ("Linter::generate_stats_file", Modelled "C16Api.XGenerateStats; over the concrete Record: C16Stats.cstep");
+   ("Linter::import_stats_file", Modelled "C16Api.XImportStats; over the concrete Record: C16Stats.cstep");
    ("to_title_case", Modelled "C16Api.XToTitleCase");
    ("Suggestion::get_replacement_text", Projection "suggestion");
    ("Suggestion::kind", Projection "suggestion");
@@ -58,7 +60,7 @@ Definition api_classification : list (string * api_status) :=
    ("Lint::span", Projection "rlint.rspan");
    ("Lint::message", Projection "rlint.rmsg");
    ("get_default_lint_config_as_json", Modelled "C16Api.XGetDefaultConfig");
-   ("get_default_lint_config", Outside js_value);
+   ("get_default_lint_config", js_twin "C16Stats.YGetDefaultConfigObject (twin: C16Api.XGetDefaultConfig)");
    ("Span::new", Projection "span");
    ("Span::is_empty", Projection "span");
    ("Span::len", Projection "span")].
@@ -68,9 +70,7 @@ Definition is_outside (s : api_status) : bool := match s with Outside _ => true 
 Lemma api_coverage :
   wasm_exported_functions = map fst api_classification
   /\ map fst (filter (fun e => is_outside (snd e)) api_classification)
-     = ["setup"; "Linter::get_lint_descriptions_as_json"; "Linter::summarize_stats";
-        "Linter::get_lint_descriptions_as_object"; "Linter::get_lint_config_as_object";
-        "Linter::set_lint_config_from_object"; "get_default_lint_config"].
+     = ["setup"].
 Proof. split; vm_compute; reflexivity. Qed.
 
 (* the bodies Model/C16Api.v transcribes *)
@@ -81,7 +81,16 @@ Lemma api_bodies :
   /\ wasm_body_get_default_lint_config_as_json = "let config = LintGroup::new_curated(MutableDictionary::new().into(), Dialect::American.into()).config; serde_json::to_string(&config).unwrap()"
   /\ wasm_body_generate_stats_file = "let mut output = Vec::new(); self.stats.write(&mut output).unwrap(); String::from_utf8(output).unwrap()"
   /\ wasm_body_import_stats_file = "let data = file.as_bytes(); let mut read = Cursor::new(data); let mut new_stats = Stats::read(&mut read).map_err(|err| err.to_string())?; self.stats.records.append(&mut new_stats.records); Ok(())"
-  /\ wasm_body_get_lint_config_as_json = "serde_json::to_string(&self.lint_group.config).unwrap()".
+  /\ wasm_body_get_lint_config_as_json = "serde_json::to_string(&self.lint_group.config).unwrap()"
+  (* Model/C16Stats.v: summarize_stats = clone, retain (when > start), retain (when < end), summarize — then the JsValue *)
+  /\ wasm_body_summarize_stats = "let mut operable_copy = self.stats.clone(); if let Some(start_time) = start_time { operable_copy.records.retain(|i| i.when > start_time); } if let Some(end_time) = end_time { operable_copy.records.retain(|i| i.when < end_time); } operable_copy .summarize() .serialize(&Serializer::json_compatible()) .unwrap()"
+  /\ wasm_body_get_lint_descriptions_as_json = "serde_json::to_string(&self.lint_group.all_descriptions()).unwrap()"
+  (* the JsValue twins: the same value / the same steps as the _json export, another serialiser *)
+  /\ wasm_body_get_lint_descriptions_as_object = "let serializer = Serializer::json_compatible(); self.lint_group .all_descriptions() .serialize(&serializer) .unwrap()"
+  /\ wasm_body_get_lint_config_as_object = "let serializer = Serializer::json_compatible(); self.lint_group.config.serialize(&serializer).unwrap()"
+  /\ wasm_body_set_lint_config_from_json = "let mut new_config = serde_json::from_str(&json).map_err(|v| v.to_string())?; self.lint_group.config.clear(); self.lint_group.config.merge_from(&mut new_config); Ok(())"
+  /\ wasm_body_set_lint_config_from_object = "let mut new_config = serde_wasm_bindgen::from_value(object).map_err(|v| v.to_string())?; self.lint_group.config.clear(); self.lint_group.config.merge_from(&mut new_config); Ok(())"
+  /\ wasm_body_get_default_lint_config = "let config = LintGroup::new_curated(MutableDictionary::new().into(), Dialect::American.into()).config; let serializer = Serializer::json_compatible(); config.serialize(&serializer).unwrap()".
 Proof. repeat split; vm_compute; reflexivity. Qed.
 
 (* ---------- the enums ---------- *)
